@@ -366,5 +366,6 @@ def RenderProgram(prog, engine_line='@Engine("sqlite");'):
       for j in range(len(p['rules']))]
   for i, j in order:
     p = prog['preds'][i]
-    lines.append(RenderRule(p['name'], p['rules'][j], p))
+    # denotations (order_by / limit) are written on the first rule only
+    lines.append(RenderRule(p['name'], p['rules'][j], p if j == 0 else None))
   return '\n'.join(lines) + '\n'
